@@ -66,7 +66,8 @@ Definition C09_holds_on (c : hcase) (o : list sobs * fobs) : bool :=
      type Template by the zero value and header id 0);
    - every value of a data record is a Go value of its element's kind (elem_typed): the
      concrete kind is the element's data type, numbers are within the Go type, the element has
-     the width RFC 7011 gives its type (octet arrays: any non-zero uint16). Values that are
+     the width RFC 7011 gives its type (octet arrays: any uint16; a zero-width one carries the
+     empty value). Values that are
      well-kinded but not encodable (address family, MAC / octet-array length, nil) are inside
      the hypotheses - they are what clause (e) is about;
    (case_set_ok, Driver/RfcCheck.v) and on the run: no call panics. *)
